@@ -149,15 +149,14 @@ Print Assumptions C10_roundtrip_written.
 (* ---- roundtrip, second half: files written by the independent encoder are
    well-formed, hold exactly the given counters, and the library's Parse reads
    them identically (names of 1..4096 arbitrary bytes, values < 2^64, metadata
-   of "key: value" lines up to 512 bytes; no name is the expansion of another
-   name, see C06) *)
+   of "key: value" lines up to 512 bytes) *)
 Theorem C10_encode_wf : forall meta cs, meta_ok meta -> cs_ok cs ->
   exists bs rs, spec_encode meta cs = Some bs /\ wf_file bs = true /\ spec_records bs = Some rs /\
                 NoDup (map r_name rs) /\ Permutation (pairs rs) cs.
 Proof. exact encode_wf. Qed.
 Print Assumptions C10_encode_wf.
 
-Theorem C10_encode_parse : forall oob meta cs, meta_ok meta -> cs_ok cs -> no_twin cs ->
+Theorem C10_encode_parse : forall oob meta cs, meta_ok meta -> cs_ok cs ->
   exists bs kv cs', spec_encode meta cs = Some bs /\ meta_kv meta = Some kv /\
     parse_with oob bs = POk kv (map (fun c => (decode_stack (fst c), snd c)) cs') /\ Permutation cs' cs.
 Proof. exact encode_parse. Qed.
